@@ -3,7 +3,7 @@
 From Coq Require Import ZArith String List Bool.
 Import ListNotations.
 Require Import ZV.Model.PrattTypes ZV.Model.Pratt ZV.Model.PrattSpec ZV.Generated.InfixTable.
-Require Import ZV.Proofs.PrattProofs ZV.Proofs.PrattInstance.
+Require Import ZV.Model.PrattFor ZV.Proofs.PrattProofs ZV.Proofs.PrattInstance ZV.Proofs.PrattForProofs.
 Open Scope Z_scope.
 Open Scope string_scope.
 
@@ -153,6 +153,48 @@ Theorem parses_is_a_run :
 Proof. exact (Parses_run T_E T_K). Qed.
 Print Assumptions parses_is_a_run.
 
+(* indexing / slicing: the selector the model of normalizeArraySelector builds for a[...] is the
+   documented one - [i] with the oracle tree of i, [a : b] / [: b] / [a :] / [:] with the oracle
+   trees of the bounds (name: tokens are split into name and :), the raw tokens for a single
+   token or several juxtaposed operands; for every content of any length the documentation covers *)
+Theorem selector_normalised :
+  forall content s, Doc.selector content = Some s ->
+    norm_selector T_E T_K nf content = ROk (sel_conv s).
+Proof. exact (inst_selector T_E T_K documented_table). Qed.
+Print Assumptions selector_normalised.
+
+(* ---- go-style for headers (model: Model/PrattFor.v) ---- *)
+(* the guards the translator read from lowerGoFor / lowerRangeFor protect the index and slice
+   sites: len(header) <= assignPos+g with index offset <= g and slice offset <= g+1; a
+   three-clause header has 2 semicolons *)
+Theorem for_guards_ok : for_consts_ok for_consts = true.
+Proof. vm_compute. reflexivity. Qed.
+Print Assumptions for_guards_ok.
+
+(* Err, never a crash of its own: for EVERY header (well-formed or not) the model of lowerGoFor
+   can only crash if Expression itself crashes on one of the clauses - header[assignPos+1] and
+   header[assignPos+2:] are never out of range *)
+Theorem for_index_sites_safe :
+  forall E K led_err body_empty label header body,
+    lower_go_for E K for_consts led_err body_empty label header body = RCrash ->
+    exists src, parse_clause E K led_err src = RCrash.
+Proof. intros E K led_err body_empty. exact (lower_go_for_index_safe E K for_consts led_err body_empty for_guards_ok). Qed.
+Print Assumptions for_index_sites_safe.
+
+(* for init ; test ; post body  lowers to (for [init test post] body), each clause parsed on its
+   own by Expression(0) (so by pratt_precedence_correct / postfix_assign_parse to its oracle
+   tree); an empty init/post is nil, an empty test is true *)
+Theorem for_three_clause :
+  forall E K led_err body_empty label s0 s1 s2 body,
+    no_semi s0 -> no_semi s1 -> no_semi s2 ->
+    lower_go_for E K for_consts led_err body_empty label (s0 ++ TSemi :: s1 ++ TSemi :: s2)%list body =
+      bind_res (parse_clause E K led_err s0) (fun init =>
+      bind_res (parse_clause E K led_err s1) (fun test =>
+      bind_res (parse_clause E K led_err s2) (fun post =>
+        ROk (FThree label init test post (body_of body_empty body))))).
+Proof. intros E K led_err body_empty. exact (three_clause E K for_consts led_err body_empty for_guards_ok). Qed.
+Print Assumptions for_three_clause.
+
 (* non-vacuity *)
 Definition s (n : string) : tok := TSym n false.
 Example ex_precedence :
@@ -200,13 +242,13 @@ Proof.
      (Cond (s "if") (Bin (s "<") (Leaf (s "a")) (Leaf (s "b"))) (Leaf (TPair 1))
            (Some (s "else", Cond (s "if") (Leaf (s "c")) (Leaf (TPair 2))
                     (Some (s "else", Bin (s "+") (Leaf (s "d")) (Leaf (TInt 1)))))))).
-  { apply (if_else_parse eof AnyTail [s "a"; s "<"; s "b"] _ [TPair 1] _ _ _ 0); try reflexivity; try lia.
-    - apply (doc_parses eof AnyTail _ [s "a"; s "<"; s "b"]); [vm_compute; reflexivity | vm_compute; split; discriminate].
-    - apply (doc_parses eof AnyTail _ [TPair 1]); [vm_compute; reflexivity | vm_compute; split; discriminate].
-    - apply (if_else_parse eof AnyTail [s "c"] _ [TPair 2] _ [s "d"; s "+"; TInt 1] _ 0); try reflexivity; try lia.
-      + apply (doc_parses eof AnyTail _ [s "c"]); [vm_compute; reflexivity | vm_compute; split; discriminate].
-      + apply (doc_parses eof AnyTail _ [TPair 2]); [vm_compute; reflexivity | vm_compute; split; discriminate].
-      + apply (doc_parses eof AnyTail _ [s "d"; s "+"; TInt 1]); [vm_compute; reflexivity | vm_compute; split; discriminate]. }
+  { apply (if_else_parse eof AnyTail [s "a"; s "<"; s "b"] _ [TPair 1] _ _ _ 0); try reflexivity; try apply Z.le_refl.
+    - eapply (inst_doc_parses_eq T_E T_K documented_table eof AnyTail _ [s "a"; s "<"; s "b"]); [vm_compute; reflexivity | vm_compute; reflexivity | vm_compute; split; discriminate].
+    - eapply (inst_doc_parses_eq T_E T_K documented_table eof AnyTail _ [TPair 1]); [vm_compute; reflexivity | vm_compute; reflexivity | vm_compute; split; discriminate].
+    - apply (if_else_parse eof AnyTail [s "c"] _ [TPair 2] _ [s "d"; s "+"; TInt 1] _ 0); try reflexivity; try apply Z.le_refl.
+      + eapply (inst_doc_parses_eq T_E T_K documented_table eof AnyTail _ [s "c"]); [vm_compute; reflexivity | vm_compute; reflexivity | vm_compute; split; discriminate].
+      + eapply (inst_doc_parses_eq T_E T_K documented_table eof AnyTail _ [TPair 2]); [vm_compute; reflexivity | vm_compute; reflexivity | vm_compute; split; discriminate].
+      + eapply (inst_doc_parses_eq T_E T_K documented_table eof AnyTail _ [s "d"; s "+"; TInt 1]); [vm_compute; reflexivity | vm_compute; reflexivity | vm_compute; split; discriminate]. }
   apply (parses_is_a_run eof AnyTail 0 _ _ H). exact I.
 Qed.
 Example ex_postfix_forms :
@@ -214,3 +256,27 @@ Example ex_postfix_forms :
   = ROk [Bin (s "=") (Leaf (s "x")) (Post (s "++") (Bin (s "+") (Leaf (s "a")) (Leaf (s "b"))));
          Post (s "++") (Leaf (s "i"))].
 Proof. vm_compute. reflexivity. Qed.
+Example ex_selector_slice :
+  Doc.selector [s "i"; s "+"; TInt 1; s ":"; s "k"; s "*"; TInt 2]
+  = Some (Doc.SSSlice (Some (Bin (s "+") (Leaf (s "i")) (Leaf (TInt 1))))
+                      (Some (Bin (s "*") (Leaf (s "k")) (Leaf (TInt 2))))).
+Proof. vm_compute. reflexivity. Qed.
+Definition isb (t : tok) : bool := match t with TPair _ => true | _ => false end.
+Example ex_for_three :
+  for_stmt T_E T_K for_consts nf isb nf
+    [s "for"; s "i"; s ":="; TInt 0; TSemi; s "i"; s "<"; TInt 3; TSemi; s "i"; s "++"; TPair 9]
+  = ROk (FThree None (Some (Bin (s ":=") (Leaf (s "i")) (Leaf (TInt 0))))
+                     (Some (Bin (s "<") (Leaf (s "i")) (Leaf (TInt 3))))
+                     (Some (Post (s "++") (Leaf (s "i")))) (Some (TPair 9)), []).
+Proof. vm_compute. reflexivity. Qed.
+Example ex_for_range :
+  for_stmt T_E T_K for_consts nf isb nf
+    [TSym "top" true; s "for"; s "k"; TComma; s "v"; s ":="; s "range"; s "h"; TDotSym ".m"; TPair 9; s "x"]
+  = ROk (FRange (Some (TSym "top" true)) [s "k"; s "v"] true (Post (TDotSym ".m") (Leaf (s "h"))) (Some (TPair 9)), [s "x"]).
+Proof. vm_compute. reflexivity. Qed.
+Example ex_for_malformed :
+  for_stmt T_E T_K for_consts nf isb nf [s "for"; s "i"; s ":="; s "range"; TPair 9] = RErr
+  /\ for_stmt T_E T_K for_consts nf isb nf [s "for"; s "i"; s "<"; TInt 3] = RErr
+  /\ for_stmt T_E T_K for_consts nf isb nf [s "for"; s "i"; TSemi; TPair 9] = RErr
+  /\ (exists x, for_stmt T_E T_K for_consts nf isb nf [s "for"; s "i"; s ":="; TPair 9] = ROk x).
+Proof. vm_compute. repeat split; try reflexivity. eexists; reflexivity. Qed.
